@@ -19,7 +19,7 @@ SPACE = {R.PT_INITIAL: "initial", R.PT_HANDSHAKE: "handshake", R.PT_ZERO_RTT: "a
 
 
 class PacketView:
-    __slots__ = ("ptype", "pn", "frames", "size", "ack_eliciting", "info", "space", "key_phase", "raw", "payload", "header", "dest", "dgram_len")
+    __slots__ = ("ptype", "pn", "frames", "size", "ack_eliciting", "info", "space", "key_phase", "raw", "payload", "header", "dest", "dgram_len", "key_gen")
 
     def __init__(self, ptype, pn, frames, size, info, key_phase, raw, payload, header):
         self.ptype = ptype
@@ -29,6 +29,7 @@ class PacketView:
         self.info = info
         self.space = SPACE.get(ptype)
         self.key_phase = key_phase
+        self.key_gen = None  # 1-RTT: generation of the keys that opened the packet
         self.raw = raw
         self.payload = payload
         self.header = header
@@ -154,6 +155,7 @@ class WireObserver:
             space = SPACE[info.ptype]
             res = None
             key_phase = None
+            key_gen = None
             if info.ptype == R.PT_ONE_RTT:
                 ring = self.rings[x]
                 if not ring.app:
@@ -176,6 +178,7 @@ class WireObserver:
                         ring.gen += 1
                 if res is not None:
                     key_phase = (res[1][0] >> 2) & 1
+                    key_gen = next(i for i, k in enumerate(ring.app) if k is res[0])
             else:
                 ks = self.candidates(x, info.ptype, version)
                 res = self.try_open(x, ks, pkt, info, space)
@@ -194,6 +197,7 @@ class WireObserver:
                 frames = None
                 self.undecryptable["frames-unparseable"] += 1
             out.append(PacketView(info.ptype, pn, frames, len(pkt), info, key_phase, pkt, payload, hdr))
+            out[-1].key_gen = key_gen
         return out
 
     def observe(self, x, data, now):
